@@ -42,7 +42,7 @@ ASSUMPTIONS = [
     "(also through an explicitly passed scheduler); metadata inference on zero-size arrays is not an evaluation",
     "sampled, not exhaustive",
 ]
-PROBES = ["api_groupby_reduce", "api_groupby_scan", "api_xarray_reduce", "api_rechunk_for_blockwise", "api_rechunk_for_cohorts",
+PROBES = ["api_xr_rechunk_for_blockwise", "api_xr_rechunk_for_cohorts", "api_groupby_reduce", "api_groupby_scan", "api_xarray_reduce", "api_rechunk_for_blockwise", "api_rechunk_for_cohorts",
           "unknown_labels_mapping_checked", "by_dask", "poisoned_chunks_later_evaluated"]
 
 _COUNTER = {"poison": 0, "trap": 0}
@@ -82,7 +82,7 @@ def gen(tape: Tape, tier: str) -> dict:
         elif r == 4:
             case["api"] = "rechunk_for_blockwise"
         elif r == 5:
-            case["api"] = "rechunk_for_cohorts"
+            case["api"] = tape.choice("gen.c12.rc", ["rechunk_for_cohorts", "xr_rechunk_for_blockwise", "xr_rechunk_for_cohorts"])
         else:
             case["api"] = "groupby_reduce"
     return case
@@ -142,6 +142,24 @@ def run(case, tape: Tape, ctx):
                 xkw.update(kwargs.get("finalize_kwargs") or {})
                 res = xarray_reduce(obj, lab, **xkw)
                 out = (res.data,)
+            elif api in ("xr_rechunk_for_blockwise", "xr_rechunk_for_cohorts"):
+                import xarray as xr
+
+                import flox.xarray as fx
+
+                dims = [f"d{i}" for i in range(arr.ndim)]
+                lab1 = bys[0]
+                labda = xr.DataArray(lab1, dims=[dims[-1]], name="lab")
+                obj = xr.DataArray(darr, dims=dims, name="v")
+                if tape.chance("gen.c12.ds", 0.5):
+                    obj = xr.Dataset({"v": obj, "w": obj * 2})
+                if api == "xr_rechunk_for_blockwise":
+                    res = fx.rechunk_for_blockwise(obj, dims[-1], labda)
+                else:
+                    ok = lab1[~(lab1 != lab1)] if lab1.dtype.kind == "f" else lab1
+                    res = fx.rechunk_for_cohorts(obj, dims[-1], labda, force_new_chunk_at=[ok[0]],
+                                                 chunksize=max(1, int(np.median(case["chunks"][-1]))))
+                out = (res["v"].data if isinstance(res, xr.Dataset) else res.data,)
             elif api == "rechunk_for_blockwise":
                 out = (flox.rechunk_for_blockwise(darr, axis=-1, labels=bys[0]),)
             elif api == "rechunk_for_cohorts":
